@@ -209,12 +209,22 @@ def reset_module_state():
     del reports.handle_reports.handlers_stack[:]
 
 
-def assemble(files, charset="bk", tree=None, keep=False, abort_at=None, reset=True):
+def prepare_tree(tree):
+    """writes the tree into a fresh directory that several assemble(..., root=...) calls share (the same path names in every run,
+    as when one process assembles the same project again); the caller removes it with shutil.rmtree"""
+    root = fresh_dir()
+    write_tree(root, tree)
+    return root
+
+
+def assemble(files, charset="bk", tree=None, keep=False, abort_at=None, reset=True, root=None):
     """files: list of (relative name, text) linked in that order; tree: extra files on
     disk (relative name -> str/bytes) for .include / insert_file.  Returns Outcome."""
     out = Outcome()
     rec = Recorder(abort_at)
-    if tree:
+    if root is not None:
+        tree = None   # the caller's directory (prepare_tree) is used as it is and left in place
+    elif tree:
         root = fresh_dir()
         write_tree(root, tree)
     else:
